@@ -211,7 +211,20 @@ class Core:
             for h in self.st.pc:
                 s.add(h)
             s.add(c)
-            return s.check() != z3.unsat
+            if s.check() != z3.unsat:
+                return True
+            # a branch is pruned on z3's word alone: in the class quantifier + sequences/arrays (where z3 5.1.0 answered
+            # 'unsat' for a satisfiable path condition, notes/z3_spurious_unsat.smt2) a second instance has to agree
+            from .engine import risky
+            if risky(list(self.st.pc) + [c]):
+                s2 = z3.Solver()
+                s2.set('timeout', self.FEAS_FULL_TIMEOUT_MS)
+                s2.set('random_seed', 17)
+                for h in self.st.pc:
+                    s2.add(h)
+                s2.add(c)
+                return s2.check() != z3.unsat
+            return False
         finally:
             pass
 
